@@ -2,6 +2,7 @@
 
 Shape: snapshot equality at copy time + disjointness of mutable state + diverging histories on both sides judged by
 per-object snapshots and the per-object invocation logs of depends(watch=True) methods."""
+import contextlib
 import copy
 import pickle
 import sys
@@ -89,6 +90,9 @@ def setup(P):
         def on_a(self, *events):
             self.__dict__.setdefault('calls', []).append('on_a')
 
+        def on_as(self, *events):
+            self.__dict__.setdefault('calls', []).append('on_as')
+
     class ObjSlots(Obj):
         __slots__ = ['history', 'tag']
 
@@ -169,6 +173,9 @@ def run_case(idx, rng, P, rep):
     if rng.random() < 0.5:
         o.param.watch(o.on_a, 'a')
         hist.append('watch-own-method')
+    if rng.random() < 0.5:
+        o.param.watch(o.on_as, ['a', 's'])          # one watcher for several parameters
+        hist.append('watch-own-method-multi')
 
     def state_op(obj, tag):
         c = rng.random()
@@ -218,12 +225,18 @@ def run_case(idx, rng, P, rep):
         rep.violation(f'C17/{key}', msg, case=desc)
 
     before = snapshot(o)
+    in_batch = rng.random() < 0.15
+    desc['copied_inside_open_batch'] = in_batch
     try:
-        if mech == 'deepcopy':
-            c = copy.deepcopy(o)
-        else:
-            c = pickle.loads(pickle.dumps(o, protocol=int(mech[-1])))
-            rep.count('pickle_copies')
+        # (a copy may be taken while a batch is open on the original: the copy is a new object outside any batch)
+        with (param.parameterized.batch_call_watchers(o) if in_batch else contextlib.nullcontext()):
+            if in_batch:
+                rep.count('copies_inside_open_batch')
+            if mech == 'deepcopy':
+                c = copy.deepcopy(o)
+            else:
+                c = pickle.loads(pickle.dumps(o, protocol=int(mech[-1])))
+                rep.count('pickle_copies')
     except Exception as e:   # noqa: BLE001
         sub = '/with-subobject-dependency' if flags['sub'] else ''
         viol(f'copy-raised/{mech.rstrip("012345")}{sub}', f'{mech} raised {type(e).__name__}: {e}')
@@ -258,15 +271,20 @@ def run_case(idx, rng, P, rep):
         s_obj = snapshot(obj)
         obj.__dict__.setdefault('calls', [])
         n_calls = len(obj.calls)
-        kind = rng.choice(['a', 's', 'sub.x', 'sub.y', 'sub.b.y', 'other.x', 'replace-sub', 'mutate', 'meta', 'a', 'sub.x', 'sub.x:bounds'])
+        kind = rng.choice(['a', 's', 'sub.x', 'sub.y', 'sub.b.y', 'other.x', 'replace-sub', 'mutate', 'meta', 'a', 'sub.x', 'sub.x:bounds', 'update-a-s'])
         expect = []
         replaced = False
+        multi = ['on_as'] if 'watch-own-method-multi' in hist else []
         if kind == 'a':
             obj.a = tokv()
-            expect = ['m_own'] + (['on_a'] if 'watch-own-method' in hist else [])
+            expect = ['m_own'] + (['on_a'] if 'watch-own-method' in hist else []) + multi
         elif kind == 's':
             obj.s = 'd%d' % int(tokv())
-            expect = ['m_own']
+            expect = ['m_own'] + multi
+        elif kind == 'update-a-s':
+            # one batch changing both: every watcher / dependent method runs once
+            obj.param.update(a=tokv(), s='u%d' % int(tokv()))
+            expect = ['m_own'] + (['on_a'] if 'watch-own-method' in hist else []) + multi
         elif kind in ('sub.x', 'sub.y'):
             if not isinstance(obj.sub, param.Parameterized):
                 continue
